@@ -98,6 +98,7 @@ type World struct {
 	turbo   bool // a turbo refine (VImportCommit) may still be running
 	qhist   map[string]*qHist
 	openedAt int64 // simulated time of the last engine.Open
+	opens    int
 	vioFault *OpFault
 	confineRoot string // when set, file-system calls must stay below it (C19); default: the run's scratch root
 
